@@ -1,6 +1,6 @@
 PROP = {
     "go_test": "TestC17",
-    "claimed": False,
+    "claimed": True,
     "coq_files": ["Trigger/Trigger.v", "Proofs/TriggerProofs.v", "Corr/CorrBase.v", "Corr/C17.v"],
     "rule": "each case is one chain history of 5-30 blocks run through the real FinalizeBlock/Commit with signed transactions on a fresh app: trigger creations (block-height, block-time and transaction-event conditions, 0-6 bank-send actions, one or two authorities, gas chosen so that the trigger's limit is tiny / medium / large / capped, malformed ones: action signer not an authority, authority did not sign, no actions, blank attribute name, past height/time, too little gas), destructions (owner, stranger, queued, unknown, zero id), event-emitting sends (matching / non-matching / failing), plain sends of the action denomination, bursts of triggers becoming ready in the same block (queue carries over MaximumActions / MaximumQueueGas). Non-trivial = at least one trigger was executed in the history; distinct = distinct step lists",
     "assumptions": ["trigger actions in the harness are bank MsgSend of a denomination nothing else moves; the model's bank is balance >= amount > 0 (forked SDK bank modelled and trusted)",
@@ -11,3 +11,15 @@ PROP = {
     "level_note": "Trusted: Coq kernel + vm_compute; hand transcription Trigger/Trigger.v; harness projection; SDK tx pipeline and bank modelled. Not covered: actions other than bank sends (no non-gas panics are provoked), real gas accounting (oracle), liveness (a trigger skipped by detectTransactionEvents after a non-matching same-type event is modelled as the code does it, not judged), genesis import/export of queue state.",
     "technique": "Coq invariant proof by induction over block histories + differential correspondence on real ABCI histories evaluated in Coq",
 }
+
+
+def fingerprint(case, tags):
+    """Recognises the one reported finding (findings/C17.md): the chain halts after a trigger with a
+    transaction event named like a reserved listener prefix was created (only generated with
+    VERIF_C17_RESERVED=1)."""
+    if any(t.startswith("prop:chain halted") for t in tags):
+        steps = (case or {}).get("steps", [])
+        if any(("tx block-height" in s or "tx block-time" in s) and "-> true" in s for s in steps) or \
+           any("CHAIN HALTED" in s and "TransactionEvent, not" in s for s in steps):
+            return "C17: end blocker panics on a transaction event named block-height/block-time"
+    return None
